@@ -9,6 +9,21 @@ from pykdebugparser.kevent import from_kd_buf
 def main():
     req = json.load(sys.stdin)
     out = []
+    if req.get('history'):
+        # earlier in the same process the library served a filtered listing (and left a lazy reader unfinished): decoding a
+        # record is a function of its 64 bytes, whatever was asked before
+        import io
+        from pykdebugparser.pykdebugparser import PyKdebugParser
+        dump = bytes.fromhex(req['history'])
+        p = PyKdebugParser()
+        p.filter_tid = 5
+        p.filter_class = [4]
+        list(p.kevents(io.BytesIO(dump)))
+        req['_keep'] = p.kevents(io.BytesIO(dump))      # a generator that is never consumed
+        try:
+            next(req['_keep'])
+        except StopIteration:
+            pass
     for h in req['records']:
         buf = bytes.fromhex(h)
         try:
